@@ -60,13 +60,13 @@ const FRAGS: &[Frag] = &[
     f("\\countdef\\cy=0 \\cy=72 \\countdef\\cz=32767 \\cz=73 \\toksdef\\ty=0 \\ty={ty}\\toksdef\\tz=255 \\tz={tz}", 0, 0, false, &["first-last", "alias-variable", "local"]),
     f("{\\count0=74 \\count32767=75 \\dimen32767=9pt \\skip32767=9pt plus 2fil \\toks0={g0}\\toks255={g255}", 1, 0, true, &["first-last", "local"]),
     // code tables: characters 0, 127 (low table ends), 128 (high table begins), U+10FFFE
-    f("\\catcode0=11 \\catcode127=11 \\catcode128=11 \\catcode1114110=11 \\catcode129=11 \\mathcode0=1 \\mathcode127=2 \\mathcode128=3 \\mathcode1114110=4 ", 0, 0, false, &["first-last", "high-code", "local"]),
+    f("\\catcode0=11 \\catcode127=11 \\catcode128=11 \\catcode1114110=11 \\catcode1114111=11 \\catcode129=11 \\mathcode0=1 \\mathcode127=2 \\mathcode128=3 \\mathcode1114110=4 \\mathcode1114111=5 ", 0, 0, false, &["first-last", "high-code", "local"]),
     // streams 0 and 15 (stream 15 positioned after its first line), first and last element of an allocated array
     f("\\openin 0 f \\openin 15 g \\read 15 to \\rz ", 0, 0, false, &["first-last", "stream", "read", "local"]),
     f("\\arr 0=5 \\arr 2=6 ", 0, 0, false, &["first-last", "alloc", "local"]),
     // integers on both sides of every width boundary of the binary formats (MessagePack fixint / 8 / 16 / 32 bits,
     // bincode varint 250/251, 2^16, 2^32), largest dimensions, all glue orders, largest \\mathchardef and \\chardef
-    f("\\count100=127 \\count101=128 \\count102=250 \\count103=251 \\count104=255 \\count105=256 \\count106=65535 \\count107=65536 \\count108=2147483647 \\count109=-32 \\count110=-33 \\count111=-128 \\count112=-129 \\count113=-32768 \\count114=-32769 \\count115=-2147483647 \\dimen2=16383.99998pt \\dimen3=-16383.99998pt \\skip2=1pt plus 16383fill minus 1filll \\skip3=-1pt plus -2fil \\mathchardef\\i=32767 \\chardef\\h=1114110 ", 0, 0, false, &["width-boundary", "local"]),
+    f("\\count100=127 \\count101=128 \\count102=250 \\count103=251 \\count104=255 \\count105=256 \\count106=65535 \\count107=65536 \\count108=2147483647 \\count109=-32 \\count110=-33 \\count111=-128 \\count112=-129 \\count113=-32768 \\count114=-32769 \\count115=-2147483647 \\dimen2=16383.99998pt \\dimen3=-16383.99998pt \\skip2=1pt plus 16383fill minus 1filll \\skip3=-1pt plus -2fil \\mathchardef\\i=32767 \\chardef\\h=1114111 ", 0, 0, false, &["width-boundary", "local"]),
     // 3- and 4-byte characters in names, bodies and token lists, a non-ASCII active character; a stream on a file
     // with a non-ASCII name, on an empty file and on a blank-only file
     f("\\def\\€{€3}\\def\\😀{😀4}\\toks2={é€😀}\\catcode`\\√=13 \\def√{AE}", 0, 0, false, &["non-ascii", "local"]),
@@ -126,7 +126,7 @@ const FINDING_RECORDED_ERROR: &str = "D7b-json-recorded-error";
 const PRELUDE: &str = "\\countdef\\f=9 \\toksdef\\g=9 \\mathchardef\\i=1 \\chardef\\hh=72 \\newInt\\n \\newIntArray\\arr 3 ";
 
 /// Prints every target. Each item is safe whether or not the name is defined.
-const OBSERVE: &str = ";\\a;\\b;\\c\\hh;\\d\\zz{Z}\\zz;\\e;\\the\\f;\\the\\g;\\h;\\the\\i;\\m12.;\\newname;\\é;\\ab;\\abc;\\firstseeninq;\\me;\\gobble x;\\mp ab;\\mn123456789;\\mh x;\\md xy1.2;\\the\\count0 ;\\the\\count32767 ;\\the\\dimen0 ;\\the\\dimen32767 ;\\the\\skip0 ;\\the\\skip32767 ;\\the\\toks0 ;\\the\\toks255 ;\\the\\catcode0 ;\\the\\catcode127 ;\\the\\catcode128 ;\\the\\catcode1114110 ;\\the\\mathcode0 ;\\the\\mathcode127 ;\\the\\mathcode128 ;\\the\\mathcode1114110 ;\\ifeof 0 c\\else o\\fi;\\ifeof 15 c\\else o\\fi;\\rz;\\the\\arr 0 ;\\the\\arr 2 ;\\the\\count32766 ;\\the\\toks254 ;\\the\\catcode129 ;\\the\\count100 ;\\the\\count101 ;\\the\\count102 ;\\the\\count103 ;\\the\\count104 ;\\the\\count105 ;\\the\\count106 ;\\the\\count107 ;\\the\\count108 ;\\the\\count109 ;\\the\\count110 ;\\the\\count111 ;\\the\\count112 ;\\the\\count113 ;\\the\\count114 ;\\the\\count115 ;\\the\\dimen2 ;\\the\\dimen3 ;\\the\\skip2 ;\\the\\skip3 ;\\€;\\😀;\\the\\toks2 ;√;\\ifeof 5 c\\else o\\fi;\\ifeof 6 c\\else o\\fi;\\ifeof 7 c\\else o\\fi;\\mq x;\\the\\n;\\the\\arr 1 ;\\r;\\ifeof 3 c\\else o\\fi;\\the\\count1 ;\\the\\dimen1 ;\\the\\skip1 ;\\the\\toks1 ;\\the\\count5 ;\\the\\toks6 ;\\the\\catcode`\\| ;\\the\\catcode`\\é ;\\the\\mathcode`\\k ;\\the\\mathcode`\\é ;\\the\\endlinechar ;\\the\\globaldefs ;\\the\\year ;\\probefont;~;|;";
+const OBSERVE: &str = ";\\a;\\b;\\c\\hh;\\d\\zz{Z}\\zz;\\e;\\the\\f;\\the\\g;\\h;\\the\\i;\\m12.;\\newname;\\é;\\ab;\\abc;\\firstseeninq;\\me;\\gobble x;\\mp ab;\\mn123456789;\\mh x;\\md xy1.2;\\the\\count0 ;\\the\\count32767 ;\\the\\dimen0 ;\\the\\dimen32767 ;\\the\\skip0 ;\\the\\skip32767 ;\\the\\toks0 ;\\the\\toks255 ;\\the\\catcode0 ;\\the\\catcode127 ;\\the\\catcode128 ;\\the\\catcode1114110 ;\\the\\catcode1114111 ;\\the\\mathcode0 ;\\the\\mathcode127 ;\\the\\mathcode128 ;\\the\\mathcode1114110 ;\\the\\mathcode1114111 ;\\ifeof 0 c\\else o\\fi;\\ifeof 15 c\\else o\\fi;\\rz;\\the\\arr 0 ;\\the\\arr 2 ;\\the\\count32766 ;\\the\\toks254 ;\\the\\catcode129 ;\\the\\count100 ;\\the\\count101 ;\\the\\count102 ;\\the\\count103 ;\\the\\count104 ;\\the\\count105 ;\\the\\count106 ;\\the\\count107 ;\\the\\count108 ;\\the\\count109 ;\\the\\count110 ;\\the\\count111 ;\\the\\count112 ;\\the\\count113 ;\\the\\count114 ;\\the\\count115 ;\\the\\dimen2 ;\\the\\dimen3 ;\\the\\skip2 ;\\the\\skip3 ;\\€;\\😀;\\the\\toks2 ;√;\\ifeof 5 c\\else o\\fi;\\ifeof 6 c\\else o\\fi;\\ifeof 7 c\\else o\\fi;\\mq x;\\the\\n;\\the\\arr 1 ;\\r;\\ifeof 3 c\\else o\\fi;\\the\\count1 ;\\the\\dimen1 ;\\the\\skip1 ;\\the\\toks1 ;\\the\\count5 ;\\the\\toks6 ;\\the\\catcode`\\| ;\\the\\catcode`\\é ;\\the\\mathcode`\\k ;\\the\\mathcode`\\é ;\\the\\endlinechar ;\\the\\globaldefs ;\\the\\year ;\\probefont;~;|;";
 
 /// two plain lines first: a restored lexer that forgets it is past its first line merges them
 const FILE_F: &str = "r1\nr2\n{r3\nr4}\nr5\n";
@@ -938,7 +938,7 @@ fn main() {
         ("integer_width_boundary_values_set", "register values on both sides of 2^7, 250/251, 2^8, 2^16, 2^31, -2^5, -2^7, -2^15, largest dimensions, fil/fill/filll set before the checkpoint"),
         ("three_and_four_byte_characters_in_state", "3- and 4-byte characters in control-sequence names, macro bodies, token lists, an active character or a file name before the checkpoint"),
         ("stream_on_empty_or_blank_file", "a read stream on an empty file and on a blank-only file is open at the checkpoint"),
-        ("first_or_last_element_of_indexed_state_set", "register 0 / 32767 / 255, code-table entry 0 / 127 / 128 / U+10FFFE, stream 0 / 15 or array element first / last set before the checkpoint"),
+        ("first_or_last_element_of_indexed_state_set", "register 0 / 32767 / 255, code-table entry 0 / 127 / 128 / U+10FFFE / U+10FFFF, stream 0 / 15 or array element first / last set before the checkpoint"),
         ("macro_with_an_empty_part_defined", "a macro with empty replacement text, prefix-only, 9 parameters or ## defined before the checkpoint"),
         ("empty_control_sequence_name_defined", "the empty control-sequence name is defined before the checkpoint and lexed again from source text after it"),
         ("non_ascii_or_prefix_name_defined", "a one-character non-ASCII name or a name that is a prefix of another name is defined before the checkpoint"),
